@@ -18,7 +18,7 @@ META["bounds"] = c01.META["bounds"] + [
 META["outside"] = c01.META["outside"] + ["escaping of < & \" ]]> and control characters (XMLGenerator / lxml)", "compound fields, wildcards, unions, QName values, formats in oracle 2 (monitor only)"]
 
 REFERENCE = ["basic_int", "basic_str", "textattr", "textstr", "reqtext", "lists_int", "lists_str", "tokenlists", "frozen", "nillable", "nilparent", "parenta",
-             "parentb", "nsattr", "nsattrparent", "derivedb", "unqualified", "sequential", "wrapped", "enums", "defaults", "holder", "derived_root"]
+             "parentb", "nsattr", "nsattrparent", "derivedb", "family", "unqualified", "sequential", "wrapped", "enums", "defaults", "holder", "derived_root"]
 
 SLEN = PART.get("slen", 2)
 IMAX = PART.get("imax", 100)
@@ -139,6 +139,8 @@ def plan(tier):
             jobs.append(Job("wf", {"spec": name, "ns": hostile[n % 8], "ida": n % 2, "indent": (n // 2) % 2, "slen": slow.get(name, 2), "imax": 100}, 240, 30))
             if name in REFERENCE:
                 jobs.append(Job("wf", {"spec": name, "ns": [0, 2, 5, 8][n % 4], "ida": (n + 1) % 2, "indent": 0, "slen": 2, "imax": 100}, 240, 30))
+        for name, ns in (("qnames", 7), ("nsattr", 10), ("nsattrparent", 10), ("nsattrparent", 1), ("family", 2), ("family", 7)):
+            jobs.append(Job("wf", {"spec": name, "ns": ns, "ida": 0, "indent": 0, "slen": 1, "imax": 100}, 240, 30))
         for ns in (5, 8, 9):
             for name in ("nillable", "holder", "anytyped", "nsattr", "parenta", "qnames", "wild_attrs"):
                 jobs.append(Job("wf", {"spec": name, "ns": ns, "ida": 0, "indent": 0, "slen": 1, "imax": 100}, 240, 30))
